@@ -201,6 +201,23 @@ pub fn rle(b: &[u8]) -> String {
     }
     out
 }
+/// one-letter tokens for an error of a particular io::ErrorKind (the library must treat every kind alike)
+pub fn kind_of_letter(s: &str) -> Option<ErrorKind> {
+    Some(match s {
+        "i" => ErrorKind::Interrupted,
+        "t" => ErrorKind::TimedOut,
+        "z" => ErrorKind::WriteZero,
+        "u" => ErrorKind::UnexpectedEof,
+        "b" => ErrorKind::BrokenPipe,
+        "w" => ErrorKind::WouldBlock,
+        "o" => ErrorKind::Other,
+        "d" => ErrorKind::InvalidData,
+        "c" => ErrorKind::ConnectionReset,
+        "n" => ErrorKind::NotFound,
+        "p" => ErrorKind::PermissionDenied,
+        _ => return None,
+    })
+}
 /// "r:5,f,0"
 pub fn parse_rsched(t: &str) -> Vec<Rop> {
     t[2..]
@@ -208,8 +225,7 @@ pub fn parse_rsched(t: &str) -> Vec<Rop> {
         .filter(|s| !s.is_empty())
         .map(|s| match s {
             "f" => Rop::Fail,
-            "i" => Rop::FailKind(ErrorKind::Interrupted),
-            "t" => Rop::FailKind(ErrorKind::TimedOut),
+            k if kind_of_letter(k).is_some() => Rop::FailKind(kind_of_letter(k).unwrap()),
             _ => Rop::Give(s.parse().unwrap()),
         })
         .collect()
@@ -221,8 +237,7 @@ pub fn parse_wsched(t: &str) -> Vec<Wop> {
         .filter(|s| !s.is_empty())
         .map(|s| match s {
             "f" => Wop::Fail,
-            "i" => Wop::FailKind(ErrorKind::Interrupted),
-            "t" => Wop::FailKind(ErrorKind::TimedOut),
+            k if kind_of_letter(k).is_some() => Wop::FailKind(kind_of_letter(k).unwrap()),
             _ => Wop::Accept(s.parse().unwrap()),
         })
         .collect()
